@@ -203,7 +203,8 @@ LEVEL_TEXT = ("Proof: C05_type_rows_exact (for every tie order of the boundary r
               "that combination of kernel types runs), C05_type_rows_partition (the patterns' times add up to the measure of the union), C05_sum_conserved, "
               "C05_named_at_most_k, C05_named_row_stats for every num_kernels >= 1 and every bucketing; correspondence on both returned frames of "
               "get_gpu_kernel_breakdown and on get_gpu_user_annotation_breakdown."
-              " C05_types_resolution_independent: times multiplied by k > 0 multiply every combination's time by k.")
+              " C05_types_resolution_independent: times multiplied by k > 0 multiply every combination's time by k."
+              " C05_rules_follow_source: the type bits of the sweep, the condition for aggregating at all and the rule that moves a row to 'others' are read from _get_gpu_kernel_type_time / _aggr_gpu_kernel_time (statement sequence pinned by digest) and are the model's.")
 LEVEL_NOTE = ("Hand model of _get_gpu_kernel_type_time (per-type merge, +-2^i rows, sort, running sum) and _aggr_gpu_kernel_time (group, sort by sum, cumulative "
               "sum, interpolated quantile, the two 'others' rules). Which of several names with equal totals lands in 'others' is left free.")
 TECHNIQUE = "Coq proof (sweep-line lemma with bit-pattern selection, cell-counting measure; list induction for the aggregator) + differential correspondence via vm_compute"
